@@ -5,5 +5,6 @@ CONSTANTS
   MaxRetry = 1
   BugEarlyIdle = FALSE
   BugLateDialLeak = FALSE
-INVARIANTS Inv_C06_OwnReply Inv_C06_CleanIdleStrict Inv_C06_IdleNotServing Inv_C18_NoLeak
+  BugStrayDial = FALSE
+INVARIANTS Inv_C06_OwnReply Inv_C06_CleanIdleStrict Inv_C06_IdleNotServing Inv_C18_NoLeak Inv_C06_NoStray
 CHECK_DEADLOCK FALSE
